@@ -77,9 +77,13 @@ FAMILIES = {
                   "encode_array_ref, encode_text_elem, encode_node, encode_box, encode_strans, encode_datetimes / encode_datetime) and data.rs GdsPoint::flatten / flatten_vec "
                   "= flatten_lib, flat_struct, flat_element, flat_boundary .. flat_box, flat_strans, flat_dates, flat_points of Gds/GdsWrite.v: the same records in the same order handed to "
                   "`encode_record`, for any implementor; over a byte vector with write_record = enc_record the whole of encode_lib = write_lib"),
+    "gds_read": ("Gds/KernelsTieGdsRead_proofs.v", "Gds.KernelsTieGdsRead_proofs", "Properties/KernelsGdsCodec.v",
+                 "gds21/src/read.rs GdsReader::read_record_header (length < 4 / odd, record type by number and valid(), data type by number), read_record_content (all 49 arms over "
+                 "(record type, data type, length): the typed read, the length, which vector elements go to which field of the GdsRecord variant), read_record; data.rs GdsRecordType::valid "
+                 "= read_header, read_content, read_record of Gds/GdsRead.v, rtype_valid of Gds/GdsRecord.v (monadic self: the unread bytes are the state; byte-level IO external; error variants apart)"),
 }
 # the file generated for each family (evidence text)
-GENERATED = {"gds_write": "KernelsGdsWriteGen.v", "tetris_period": "KernelsTetrisConvPGen.v", "tetris_proto": "KernelsTetrisProtoGen.v", "raw_gdsi": "KernelsRawGdsImportGen.v", "tetris_conv": "KernelsTetrisConvXGen.v, KernelsTetrisConvIGen.v", "raw_gdsx": "KernelsRawGdsExportGen.v", "order_generic": "KernelsOrderGen.v", "order_raw": "KernelsRawOrderGen.v", "order_tetris": "KernelsTetrisOrderGen.v, KernelsTetrisProtoOrderGen.v (and KernelsOrderGen.v)", "tetris_stack": "KernelsTetrisGen.v", "tetris_tracks": "KernelsTetrisGen.v", "tetris_place": "KernelsTetrisGen.v", "raw_lef": "KernelsRaw2Gen.v", "raw_proto": "KernelsRaw2Gen.v", "raw_gds": "KernelsRaw2Gen.v"}
+GENERATED = {"gds_write": "KernelsGdsWriteGen.v", "gds_read": "KernelsGdsReadGen.v", "tetris_period": "KernelsTetrisConvPGen.v", "tetris_proto": "KernelsTetrisProtoGen.v", "raw_gdsi": "KernelsRawGdsImportGen.v", "tetris_conv": "KernelsTetrisConvXGen.v, KernelsTetrisConvIGen.v", "raw_gdsx": "KernelsRawGdsExportGen.v", "order_generic": "KernelsOrderGen.v", "order_raw": "KernelsRawOrderGen.v", "order_tetris": "KernelsTetrisOrderGen.v, KernelsTetrisProtoOrderGen.v (and KernelsOrderGen.v)", "tetris_stack": "KernelsTetrisGen.v", "tetris_tracks": "KernelsTetrisGen.v", "tetris_place": "KernelsTetrisGen.v", "raw_lef": "KernelsRaw2Gen.v", "raw_proto": "KernelsRaw2Gen.v", "raw_gds": "KernelsRaw2Gen.v"}
 TRANSLATOR = os.path.join(VERIF, "tools", "translate_rust_kernels.py")
 
 def _failing_lemma(out, coqdir):
